@@ -215,6 +215,8 @@ func runTreeCase(carBin string, c *treeCase, base string) (string, string) {
 	}
 	ccmd := exec.Command(carBin, append(args, src)...)
 	switch c.Cfg.Spell {
+	case "slash": // the source directory named with a trailing separator
+		ccmd = exec.Command(carBin, append(args, src+string(os.PathSeparator))...)
 	case "dot": // run inside the tree, source spelled "."
 		ccmd = exec.Command(carBin, append(args, ".")...)
 		ccmd.Dir = src
@@ -325,7 +327,7 @@ func runTreeCase(carBin string, c *treeCase, base string) (string, string) {
 		rel := filepath.Join(parts...)
 		// what the source tree has at the corresponding place
 		srel := rel
-		if !c.Cfg.Nowrap && (c.Cfg.Spell == "abs" || c.Cfg.Spell == "" || c.Cfg.Spell == "hidden") {
+		if !c.Cfg.Nowrap && (c.Cfg.Spell == "abs" || c.Cfg.Spell == "" || c.Cfg.Spell == "hidden" || c.Cfg.Spell == "slash") {
 			srel = strings.TrimPrefix(strings.TrimPrefix(rel, wrapName), string(os.PathSeparator))
 		}
 		if srel == "" {
